@@ -9,7 +9,6 @@ Every base has a fixed pool of >= 3 input valuations chosen to take both If bran
 
 
 import numpy as np
-import onnx
 from onnx import TensorProto as TP
 from onnx import helper as oh
 from onnx import numpy_helper as nh
